@@ -49,6 +49,29 @@ fn mt_recs(id: u32) -> Vec<kernel::OpRecord> {
 /// drained), a task of this thread whose last poll returned `Pending`, that
 /// has a live request and a result waiting for it, must have had the waker of
 /// that poll invoked.
+/// The completion queue is drained and `t` (not being polled) has a result
+/// waiting that is not an interruption to be restarted.
+fn ready_and_drained(t: &MtTask) -> bool {
+    let drained = kernel::with(|k| {
+        let r = &k.rings[0];
+        r.cq_ready() == 0 && r.overflow.is_empty() && r.deferred.is_empty() && !r.cq_mem.dead
+    });
+    if !drained {
+        return false;
+    }
+    let unconsumed = kernel::with(|k| k.rings[0].published.iter().any(|p| p.by_op == t.id && p.during == During::Poll));
+    if unconsumed {
+        return false;
+    }
+    let recs = mt_recs(t.id);
+    let (items, complete, last_done) = crate::engine::script_of(&recs, &t.expect);
+    if t.is_iter {
+        items.len() > t.matched || (complete && last_done)
+    } else {
+        recs.last().is_some_and(|r| r.done && r.cqes.last().is_some_and(|c| c.0 != -libc::EINTR && c.0 != -libc::ECANCELED))
+    }
+}
+
 fn check_lost_wakeups(list: &[MtTask]) {
     let drained = kernel::with(|k| {
         let r = &k.rings[0];
@@ -212,7 +235,9 @@ fn mt_ops(kinds: &'static [Kind], sq_sizes: &[u32], faults: bool) {
                         continue;
                     }
                     pending += 1;
-                    if t.polled && !t.wakers.fired() {
+                    // Polled when woken - and now and then without (join/select
+                    // style combinators poll all their futures).
+                    if t.polled && !t.wakers.fired() && !tape::chance(site::STEP, 1, 12) {
                         continue;
                     }
                     t.wakers.clear();
@@ -220,7 +245,19 @@ fn mt_ops(kinds: &'static [Kind], sq_sizes: &[u32], faults: bool) {
                     let mut cx = Context::from_waker(&wk);
                     let mut produced = Vec::new();
                     let old = kernel::set_cur(t.id, During::Poll);
+                    // C05: with the completion queue drained, a result that is
+                    // waiting for this task must come out of this poll.
+                    let must_resolve = t.polled && t.last_pending && ready_and_drained(t);
                     let r = t.task.as_mut().unwrap().poll(&mut cx, &mut produced);
+                    if must_resolve && r.is_pending() {
+                        violation(
+                            "cq.lost",
+                            format!(
+                                "{} (op#{}) returned Pending although the kernel published its completion and the ring thread has consumed the whole completion queue: the completion never reached the operation",
+                                t.name, t.id
+                            ),
+                        );
+                    }
                     kernel::set_cur(old.0, old.1);
                     t.polled = true;
                     for p in produced {
@@ -439,6 +476,9 @@ struct PollRec {
     timeout: Option<Duration>,
     /// Ended by the (long) timeout or because nothing could ever wake it.
     expired: bool,
+    /// The kernel refused the call (ring not enabled): it returned at once,
+    /// and it may have consumed a wake-up on its way.
+    refused: bool,
 }
 
 #[derive(Clone, Debug)]
@@ -463,10 +503,17 @@ pub fn mt_wake() {
     };
     kcfg.random_layout = tape::chance(site::GEOM, 1, 3);
     kernel::with(|k| k.cfg = kcfg);
-    trace(&[tag::CFG, kind, sq, u32::from(defer)]);
-    ev!("h mt-wake kind={kind} sq={sq} defer={defer}");
+    // Some rings start disabled: the poller enables its ring first (possibly
+    // after a poll that the kernel refuses, possibly after somebody's wake()).
+    let disabled = tape::chance(site::GEOM, 1, 5);
+    let failed_poll_first = disabled && tape::chance(site::GEOM, 1, 2);
+    trace(&[tag::CFG, kind, sq, u32::from(defer) + 2 * u32::from(disabled) + 4 * u32::from(failed_poll_first)]);
+    ev!("h mt-wake kind={kind} sq={sq} defer={defer} disabled={disabled}");
     let ring = alloc::a10(|| {
         let mut c = a10::Ring::config().with_submission_queue_size(sq);
+        if disabled {
+            c = c.disable();
+        }
         match kind {
             2 => c = c.with_kernel_thread(),
             3 => {
@@ -525,6 +572,31 @@ pub fn mt_wake() {
             let r = &mut ring.0;
             // The ring belongs to this thread (as if it had created it).
             kernel::with(|k| k.rings[0].submitter = Some(sched::tid()));
+            if disabled {
+                if failed_poll_first {
+                    // Refused (EBADFD): the ring is not enabled yet. It is a
+                    // poll all the same: it returns at once and may consume
+                    // a wake-up.
+                    let start = stamp();
+                    let res = alloc::a10(|| r.poll(Some(Duration::ZERO)));
+                    let end = stamp();
+                    ev!("h poller: Ring::poll on the disabled ring -> {res:?}");
+                    polls.lock().unwrap_or_else(|e| e.into_inner()).push(PollRec {
+                        start,
+                        end,
+                        timeout: Some(Duration::ZERO),
+                        expired: false,
+                        refused: true,
+                    });
+                    sched::step_boundary();
+                }
+                sched::step_boundary();
+                if let Err(e) = alloc::a10(|| r.enable()) {
+                    violation("panic", format!("Ring::enable failed: {e}"));
+                }
+                ev!("h poller: ring enabled");
+                sched::step_boundary();
+            }
             for t in timeouts {
                 let before = kernel::with(|k| (k.clock_ns, k.stuck_waits));
                 let start = stamp();
@@ -542,6 +614,7 @@ pub fn mt_wake() {
                     end,
                     timeout: t,
                     expired,
+                    refused: false,
                 });
                 sched::step_boundary();
             }
@@ -662,7 +735,7 @@ pub fn mt_wake() {
                     continue 'wakes;
                 }
                 Some(_) => continue 'wakes, // its wait was over, it may consume W
-                None if p.start > wk.start => continue 'wakes, // prompt, never blocked
+                None if p.start > wk.start || p.refused => continue 'wakes, // prompt, never blocked
                 None => {}                  // running, never blocks: the next poll owes it
             }
         }
@@ -717,7 +790,16 @@ pub fn mt_pool() {
         ..KCfg::default()
     };
     kernel::with(|k| k.cfg = kcfg);
-    let ring = alloc::a10(|| a10::Ring::config().with_submission_queue_size(8).build());
+    // Buffers are released from any thread, also on single-issuer rings (a
+    // release is a memory write, no system call).
+    let single_issuer = tape::chance(site::GEOM, 1, 3);
+    let ring = alloc::a10(|| {
+        let mut c = a10::Ring::config().with_submission_queue_size(8);
+        if single_issuer {
+            c = c.single_issuer();
+        }
+        c.build()
+    });
     let Ok(mut ring) = ring else {
         report::harness_error("ring build failed".to_string());
         return;
@@ -741,7 +823,7 @@ pub fn mt_pool() {
         }
     };
     w.pools.push(pool);
-    trace(&[tag::CFG, u32::from(size)]);
+    trace(&[tag::CFG, u32::from(size), u32::from(single_issuer)]);
     // Rounds: fill the pool through reads (one thread), then release from
     // several threads at once while the kernel watches the ring tail.
     let rounds = 1 + tape::choose(site::GEOM, 3);
